@@ -112,6 +112,10 @@ impl TilemapData {
         self.height
     }
 
+    pub(crate) fn max_tile_id(&self) -> Option<u32> {
+        self.tiles.max_id()
+    }
+
     pub fn tile(&self, x: u16, y: u16) -> Option<&Tile> {
         if x >= self.width || y >= self.height {
             return None;
